@@ -14,34 +14,48 @@ RULE = ('(a) nested schedules over {lookup, register, replace}: up to 6 top-leve
         'internal step of an in-progress lookup (after the attribute read, before each adapter query, before the lock, with '
         'the lock held, after the lock) and before/after the clear of a registration, nesting <= 3, ordinary and exception '
         'classifier, pyramid and foreign registries; systematic family + random. (b) request histories on ONE long-lived '
-        'application (through _call_view, the Router, invoke_exception_view): predicates, accept, permissions, MultiViews, '
-        'exception classes as resources, short-lived per-instance-marked resources (directlyProvides), steps on several OS '
-        'threads one after the other, requests probed at every Python step of MultiView.add; every response compared with a '
-        'freshly built application. Non-trivial = some lookup/request was answered by a view and (a) an operation ran inside '
-        'another / (b) a registration followed a request; distinct by full case')
+        'application (through _call_view, the Router, Router.invoke_subrequest, invoke_exception_view): predicates, accept, '
+        'permissions, MultiViews, exception classes as resources, short-lived per-instance-marked resources '
+        '(directlyProvides), steps on several OS threads one after the other, requests probed at every Python step of '
+        'MultiView.add, ONE request object dispatched several times (route URL / no-route URL in both orders), the registry '
+        're-initialised through pyramid.testing.tearDown and used again; every response compared with a freshly built '
+        'application. Non-trivial = some lookup/request was answered by a view and (a) an operation ran inside another / '
+        '(b) a registration followed a request; distinct by full case')
 ASSUMPTIONS = ['a registration is ONE step (the property injects registrations as whole operations into in-progress lookups; lookups '
                'pre-empting a registration half-way are outside its quantifier) -- except that requests ARE probed at every Python '
                'step of MultiView.add and its callees (in-place addition to a live MultiView; a test, no model side). The '
                'unregister -> registerAdapter window of a single-view -> MultiView conversion is a documented limitation (NOTES.md)',
                'every instruction of the translated programs (attribute read/rebind, dict get/set, one adapter-registry query, '
                'lock acquire/release) is atomic (GIL-level); the adapter registry is a map slot -> view and registerAdapter is one step',
-               'deterministic pre-emption realises properly nested interleavings only; free-running threads are a test (thorough tier)']
-TRUSTED = ['translator harness/c15/translate.py (Python ast -> instruction list + cache key, fail-closed; _find_views fully translated, the rest shape-pinned)',
+               'deterministic pre-emption realises properly nested interleavings only; free-running threads are a test (thorough tier)',
+               'a re-initialisation of the registry (Registry.__init__ run again) is ONE step and is modelled in idle states only '
+               '(no lookup or registration in flight); Components.__init__ drops every registration (zope, validated by correspondence)']
+TRUSTED = ['translator harness/c15/translate.py (Python ast -> instruction lists, cache key, init program, gen_call_view; fail-closed; '
+           '_find_views, _call_view, Registry.__init__ fully translated, the request-type stores of Router.handle_request as facts, '
+           'the rest shape-pinned)',
            'instruction semantics coq/Model/C15.v (validated by correspondence incl. the number of adapter queries per lookup)',
-           'zope.interface resolution orders (__sro__) and the adapter registry (oracle input / abstract map)']
-TECHNIQUE = ('Coq proof (invariant over arbitrary traces of a small-step system, any number of threads) about a program translated '
-             'from the Python AST + differential correspondence under deterministic pre-emption')
+           'zope.interface resolution orders (__sro__) and the adapter registry (oracle input / abstract map)',
+           'what ONE view callable / MultiView answers to a request (oracle table per request, validated against the application and a fresh application)']
+TECHNIQUE = ('Coq proof (invariant over arbitrary traces of a small-step system, any number of threads; histories with '
+             're-initialisations; generated = model for _call_view) about programs translated from the Python AST + differential '
+             'correspondence under deterministic pre-emption')
 LEVEL_TEXT = ('Machine-checked theorems over every trace (unbounded threads and steps) of the small-step system that runs the '
               'instruction list translated from _find_views / _clear_view_lookup_cache / add_view.register on this run: the cache '
               'invariant, freshness of every lookup that starts after a registration completed, no stale entry after a registration, '
-              'misses never cached, concurrent = sequential. Each other parameter value (write through the re-read attribute, '
-              'in-place clear, missing guard) is refuted by a concrete schedule which is also replayed on the implementation. '
+              'misses never cached, concurrent = sequential (each also for the two lock-free bodies). Each other parameter value '
+              '(write through the re-read attribute, in-place clear, missing guard) is refuted by a concrete schedule which is also '
+              'replayed on the implementation. The theorems extend to histories in which the registry is re-initialised in idle '
+              'states (init program translated from Registry.__init__; for every init program that clears the cache and drops the '
+              'registrations, in whichever order; an init program that keeps the cache is refuted). The request type a Router '
+              'dispatch looks views up with is proved independent of earlier dispatches of the same request object (facts read '
+              'from Router.handle_request; refuted without the reset). _call_view is translated and proved equal to its reference '
+              'model (first candidate that does not raise PredicateMismatch answers). '
               'The theorems are for a cache key that contains the view classifier (regenerated fact cache_key_mode); for the key '
-              '(request_iface, context_iface, view_name) of the unrepaired tree freshness is refuted by a concrete history '
-              '(exception-view lookup, then ordinary lookup of the same triad) and proved only for histories of ordinary lookups. '
-              'Lock: mutual exclusion, release by the holder, no deadlock; the scheduler of the wire glue is proved sound.')
+              '(request_iface, context_iface, view_name) freshness is refuted by a concrete history and proved only for histories '
+              'of ordinary lookups. Lock: mutual exclusion, release by the holder, no deadlock; the schedulers of the wire glue '
+              '(nested schedules, histories) are proved sound.')
 LEVEL_NOTE = ('Trusted: Coq kernel; instruction semantics and atomicity granularity (GIL-level); the translator; the Python harness. '
-              'Free-running thread soak is a test, not part of the proof.')
+              'Free-running thread soak and the atomicity probe of MultiView.add are tests, not part of the proof.')
 
 # interface numbering shared with the model (ids are arbitrary but fixed)
 I_INTERFACE, I_REQUEST, I_ROUTE, I_COMBINED = 0, 1, 2, 3
@@ -85,12 +99,32 @@ def facts(src):
         if fn is None:
             raise T.Unknown('Registry._clear_view_lookup_cache not found')
         mode = T.clear_mode(fn, 'self')
-        init = m.find('Registry.__init__')
-        txt = [T.u(s) for s in init.body]
-        if 'self._lock = threading.Lock()' not in txt or 'self._clear_view_lookup_cache()' not in txt:
-            raise T.Unknown('Registry.__init__ does not create the lock / the first cache')
     except Exception as e:
         problems.append('registry.py cache management not recognised: %s' % e)
+    # Registry.__init__ (also run on LIVE registries: pyramid.testing.tearDown) -> init program
+    init_prog = None
+    try:
+        init = F.Module(src, 'pyramid/registry.py').find('Registry.__init__')
+        if init is None:
+            raise T.Unknown('Registry.__init__ not found')
+        init_prog = T.translate_init(init, 'clear_mode_registry')
+    except Exception as e:
+        problems.append('registry.py Registry.__init__ not translatable: %s' % e)
+    if init_prog is None:
+        init_prog = list(T.DEFAULT_INIT)
+    # Router.handle_request: the request type the view lookup of a dispatch is made with
+    resets, sets_route = True, True
+    try:
+        hr = F.Module(src, 'pyramid/router.py').find('Router.handle_request')
+        if hr is None:
+            raise T.Unknown('Router.handle_request not found')
+        resets, sets_route = T.router_iface(hr)
+    except Exception as e:
+        problems.append('router.py handle_request (request type of the lookup) not recognised: %s' % e)
+    try:
+        T.request_iface_sites(src)
+    except Exception as e:
+        problems.append('request_iface stored outside Router.handle_request: %s' % e)
     try:
         m = F.Module(src, 'pyramid/config/__init__.py')
         fn = m.find('Configurator._fix_registry._clear_view_lookup_cache')
@@ -132,6 +166,15 @@ def facts(src):
     except Exception as e:
         reads_only = False
         problems.append('view.py:_call_view does not just iterate over the cached candidate list: %s' % e)
+    # _call_view: the control flow around the candidate calls, regenerated
+    gen_cv = T.CV_FALLBACK
+    try:
+        fn = F.Module(src, 'pyramid/view.py').find('_call_view')
+        if fn is None:
+            raise T.Unknown('_call_view not found')
+        gen_cv = T.translate_call_view(fn)
+    except Exception as e:
+        problems.append('view.py:_call_view not translatable: %s' % e)
     # coverage facts (fail closed): where the cache / the lock are touched, where view adapters are registered, the
     # fragment of the register action that decides classifiers and the clear, the Registry class skeleton
     try:
@@ -169,7 +212,7 @@ def facts(src):
         problems.append('config/views.py MultiView keeps state besides views/media_views/accepts: %s' % e)
     if register is None:
         register = ['RegisterAdapter', 'Clear clear_mode_registry']
-    coq = (F.HEADER + 'Require Import Verif.Lib.C15Prog.\n'
+    coq = (F.HEADER + 'Require Import Verif.Lib.C15Prog Verif.Lib.C15Init.\n'
            '(* order of the default view_types tuple; IView=0 ISecuredView=1 IMultiView=2 *)\n'
            'Definition view_types : list N := [%s]%%N.\n'
            '(* translated from pyramid.view._find_views *)\n'
@@ -188,12 +231,22 @@ def facts(src):
            'Definition call_view_reads_only : bool := %s.\n'
            '(* a MultiView (the object the cache holds) keeps nothing derived from requests: serving only reads it *)\n'
            'Definition multiview_stateless : bool := %s.\n'
+           '(* translated from Registry.__init__ (run again on a live registry by pyramid.testing.tearDown) *)\n'
+           'Definition init_prog : list init_instr :=\n  %s.\n'
+           '(* Router.handle_request: request.request_iface reset to IRequest before routing / set for a matched route *)\n'
+           'Definition router_resets_iface : bool := %s.\n'
+           'Definition router_sets_route_iface : bool := %s.\n'
+           '(* translated from pyramid.view._call_view: which candidate of the list returned by _find_views answers *)\n'
+           '%s'
            % ('; '.join(str(T.VIEW_TYPE_IDS[n]) for n in vt), T.coq_prog(lookup), ', '.join(key_names),
               'KeyFull' if 'view_classifier' in key_names else 'KeyTriad', F.coq_bool('view_types' in key_names),
               mode, fmode, T.coq_prog(register), T.coq_prog(register).replace('clear_mode_registry', 'clear_mode_fallback'),
-              F.coq_bool(reads_only), F.coq_bool(mv_stateless)))
+              F.coq_bool(reads_only), F.coq_bool(mv_stateless),
+              T.coq_prog(init_prog), F.coq_bool(resets), F.coq_bool(sets_route), gen_cv))
     summary.update({'lookup_prog': T.coq_prog(lookup), 'register_prog': T.coq_prog(register).replace('clear_mode_registry', mode),
-                    'clear_mode': mode, 'clear_mode_fallback': fmode, 'view_types': vt, 'params': T.flat_params(lookup), 'call_view_reads_only': reads_only, 'multiview_stateless': mv_stateless, 'cache_key': key_names,
+                    'clear_mode': mode, 'clear_mode_fallback': fmode, 'init_prog': T.coq_prog(init_prog).replace('clear_mode_registry', mode),
+                    'router_resets_iface': resets, 'router_sets_route_iface': sets_route,
+                    'gen_call_view_is_reference_text': gen_cv == T.CV_FALLBACK, 'view_types': vt, 'params': T.flat_params(lookup), 'call_view_reads_only': reads_only, 'multiview_stateless': mv_stateless, 'cache_key': key_names,
                     'cache_key_mode': 'KeyFull' if 'view_classifier' in key_names else 'KeyTriad',
                     'theorems_applying': ('C15_lookup_fresh (full key)' if 'view_classifier' in key_names else
                                           'C15_lookup_fresh_ordinary_only_partial + C15_lookup_fresh_KeyTriad_refuted')})
@@ -334,6 +387,8 @@ def gen_hist(rng):
     use_marks = rng.random() < 0.35   # short-lived resources marked per instance (directlyProvides), marker-interface views
     use_threads = rng.random() < 0.4  # steps run on different OS threads, one after the other
     use_probe = rng.random() < 0.35   # a request made at every step of MultiView.add while a registration runs
+    use_reinit = rng.random() < 0.2   # the registry is re-initialised (testing.tearDown) and used again
+    use_sub = rng.random() < 0.3      # request OBJECTS dispatched by the Router, some of them more than once
     tag = [0]
     tri = []
     steps = []
@@ -346,7 +401,7 @@ def gen_hist(rng):
         if tri and rng.random() < 0.6:
             rq, ctx, name = rng.choice(tri)
         else:
-            rq = 1 if rng.random() < 0.85 else 2
+            rq = 1 if rng.random() < (0.6 if use_sub else 0.85) else 2
             ctx = rng.choice(rctx)
             name = 0 if rng.random() < 0.9 else 1
             tri.append((rq, ctx, name))
@@ -392,17 +447,34 @@ def gen_hist(rng):
                 if q['mark'] is None:
                     q.pop('mark')
                 lastmark[0] = q.get('mark')
+            q.pop('same', None)
+            if q['via'] == 2:
+                q['via'] = 0
+            if q['req'] == 2:
+                q['req'] = 1
+            if use_sub and q['cl'] == 0 and q['s'] == 1 and q['req'] == 1 and rng.random() < 0.65:
+                q['via'] = 2
+                if q['name'] == 0 and rng.random() < 0.5:
+                    q['req'] = 2                    # the URL of the route
+                if rng.random() < 0.65:
+                    q['same'] = 1                   # the request object of the previous such step, dispatched again
             if use_threads:
                 q['th'] = rng.choice([0, 1, 1, 2])
             lastq = q
             steps.append(q)
+            if use_reinit and rng.random() < 0.25:
+                steps.append({'t': 'I'})
+                if rng.random() < 0.7:
+                    steps.append(dict(q))           # the lookup served before, asked again of the emptied registry
         else:
             v = reg()
             if use_threads:
                 v['th'] = rng.choice([0, 0, 1, 2])
             if use_probe and lastq is not None and lastq['cl'] == 0 and rng.random() < 0.7:
-                pr = {k: x for k, x in lastq.items() if k not in ('th', 'mark')}
+                pr = {k: x for k, x in lastq.items() if k not in ('th', 'mark', 'same')}
                 pr['via'] = 0
+                if pr['req'] == 2:
+                    pr['req'] = 1
                 pr['m'] = rng.choice(METHODS)
                 v['probe'] = pr
                 # aim the registration at the triad the probe asks for
@@ -410,7 +482,7 @@ def gen_hist(rng):
                     v['ctx'], v['name'], v['rq'], v['exc'] = pr['ctx'], pr['name'], 1, 0
             steps.append(v)
     return {'hist': steps, 'order': 1 if use_accept and rng.random() < 0.3 else 0,
-            'foreign': 1 if steps[0]['t'] == 'V' and rng.random() < 0.2 else 0}
+            'foreign': 1 if steps[0]['t'] == 'V' and not use_reinit and rng.random() < 0.2 else 0}
 
 
 HKEYS = [None, 'html', 'json', 'json', 'plain', 'jh', 'html1', 'textany', 'anylow', 'xml']
@@ -491,6 +563,26 @@ def hist_scenarios():
     # a registry that is not a pyramid Registry (lock and clear installed by Configurator._fix_registry)
     out.append({'hist': [V(1, 'A', None, 1), Q(1, 'A', 'GET'), V(1, 'A', None, 2), Q(1, 'A', 'GET'),
                          V(1, 'A', 'POST', 3), Q(1, 'A', 'POST'), Q(1, 'B', 'GET')], 'foreign': 1})
+    # a registry re-initialised after lookups were served (pyramid.testing.tearDown) and taken into use again: the
+    # lookups served before are asked again before / after anything is registered
+    out.append({'hist': [V(1, 'A', None, 1), Q(1, 'A', 'GET'), Q(1, 'A', 'GET'), {'t': 'I'}, Q(1, 'A', 'GET'),
+                         Q(1, 'B', 'GET'), V(1, 'A', None, 2), Q(1, 'A', 'GET'), Q(1, 'B', 'GET'), {'t': 'I'},
+                         Q(1, 'B', 'GET', via=1), Q(1, 'A', 'GET')]})
+    out.append({'hist': [V(1, 'X', None, 1), V(1, 'A', 'POST', 2), V(1, 'A', None, 3), Q(1, 'X', 'GET', cl=1),
+                         Q(1, 'A', 'POST'), {'t': 'I'}, Q(1, 'A', 'POST'), Q(1, 'X', 'GET', cl=1), Q(1, 'X', 'GET'),
+                         V(1, 'A', 'POST', 4), Q(1, 'A', 'POST'), Q(1, 'A', 'GET')]})
+
+    # one request OBJECT dispatched several times by the Router (internal forward: path rewritten, routing result
+    # forgotten): a route URL, then a URL no route matches, and the other way round
+    def qs(req, ctx, same, m='GET', name=0):
+        d = Q(req, ctx, m, name, via=2)
+        d['same'] = same
+        return d
+    out.append({'hist': [V(1, 'A', None, 1), V(2, 'A', None, 2), qs(2, 'A', 0), qs(1, 'A', 1), qs(2, 'A', 1),
+                         qs(1, 'A', 1, name=1), qs(1, 'A', 0), qs(1, 'B', 1)]})
+    out.append({'hist': [V(1, 'A', None, 1), qs(1, 'A', 0), qs(2, 'A', 1), qs(1, 'A', 1), V(2, 'A', 'POST', 2),
+                         qs(2, 'A', 1, 'POST'), qs(1, 'A', 1, 'POST'), V(1, 'A', 'POST', 3), qs(2, 'A', 1, 'POST'),
+                         qs(1, 'A', 1, 'POST')]})
     for c in out:
         c.setdefault('order', 0)
         c.setdefault('foreign', 0)
@@ -741,12 +833,18 @@ def valid(case):
             for st in case['hist']:
                 if not isinstance(st, dict):
                     return False
-                if st.get('t') == 'Q':
-                    if set(st) - {'th', 'mark'} != {'t', 'req', 'ctx', 'name', 'm', 'h', 'u', 's', 'cl', 'via'} \
-                            or st['req'] not in (1, 3) or st.get('th', 0) not in (0, 1, 2) \
+                if st.get('t') == 'I':
+                    # the registry is re-initialised (Registry.__init__ run again, through pyramid.testing.tearDown)
+                    if set(st) != {'t'} or case.get('foreign'):
+                        return False
+                elif st.get('t') == 'Q':
+                    if set(st) - {'th', 'mark', 'same'} != {'t', 'req', 'ctx', 'name', 'm', 'h', 'u', 's', 'cl', 'via'} \
+                            or st['req'] not in ((1, 2) if st['via'] == 2 else (1, 3)) or st.get('th', 0) not in (0, 1, 2) \
+                            or st.get('same', 0) not in (0, 1) or (st.get('same') and st['via'] != 2) \
+                            or (st['via'] == 2 and (st['cl'] or st['s'] != 1 or (st['req'] == 2 and st['name']))) \
                             or st.get('mark') not in (None,) + MARKS \
                             or (st.get('mark') and ((st['ctx'], st['mark']) not in SPEC or st['cl'])) \
-                            or st['cl'] not in (0, 1) or st['via'] not in (0, 1) \
+                            or st['cl'] not in (0, 1) or st['via'] not in (0, 1, 2) \
                             or (st['cl'] == 1 and (st['ctx'] not in EXC_CTX or st['name'] != 0 or st['via'])) \
                             or (st['via'] == 1 and (st['req'] != 1 or st['s'] != 1)) \
                             or st['m'] not in METHODS or st['u'] not in (0, 1) or st['s'] not in (0, 1) \
@@ -814,8 +912,20 @@ def to_wire(case):
     if 'hist' in case:
         book = Book(_impl['override_unregisters'], _impl['orders'][case['order']])
         ops, ans = [], []
+        chain = None
         for oid, st in enumerate(case['hist']):
-            if st['t'] == 'Q':
+            if st['t'] == 'I':
+                ops.append([2, oid])
+                book = Book(_impl['override_unregisters'], _impl['orders'][case['order']])
+                chain = None
+            elif st['t'] == 'Q' and st['via'] == 2:
+                # dispatched by the Router on a request OBJECT that may have been dispatched before: the model
+                # computes the request type of the lookup from the chain of route matches of that object
+                m = [I_ROUTE] if st['req'] == 2 else []
+                chain = (chain + [m]) if (st.get('same') and chain is not None) else [m]
+                ops.append([3, oid, [st['cl'], qctx(st), st['name']], chain])
+                ans.append([oid, book.table(st)])
+            elif st['t'] == 'Q':
                 ops.append([0, oid, [st['cl'], st['req'], qctx(st), st['name']], []])
                 ans.append([oid, book.table(st)])
             else:
@@ -1135,6 +1245,40 @@ class _World:
         self.keep = []
         self.workers = {}
         self.answers = []
+        self.sub_request = None
+        self.order = order
+
+    def reinit(self):
+        """the registry is re-initialised while the world goes on living: pyramid.testing.tearDown() runs
+        registry.__init__(registry.__name__) on the registry it pops (every registration is gone), then the registry is
+        taken into use again the way testing.setUp(registry=...) does (no view is added by that).  The harness's seams
+        are taken off before and put back afterwards."""
+        from pyramid import testing
+        from pyramid.threadlocal import manager
+        im = _impl
+        reg = self.reg
+        reg.adapters = self.real
+        lp = reg.__dict__.get('_lock')
+        if isinstance(lp, _LockProxy):
+            reg._lock = lp._real
+        manager.push({'registry': reg, 'request': None})
+        testing.tearDown(unhook_zca=False)
+        self.config = config = testing.setUp(registry=reg, hook_zca=False, package=im['pview'])
+        manager.clear()
+        config.set_security_policy(_Policy())
+        config.add_route('r1', '/r1')
+        if self.order:
+            config.add_accept_view_order('application/json', weighs_more_than='text/html')
+        config.set_root_factory(lambda request: request.environ['c15.root'])
+        route = reg.queryUtility(im['IRouteRequest'], name='r1')
+        self.req = {1: im['IRequest'], 2: route, 3: route.combined}
+        self.iface_ids[route] = I_ROUTE          # the interfaces of the earlier route keep their ids (stale cache keys)
+        self.iface_ids[route.combined] = I_COMBINED
+        self.router = None
+        self.sub_request = None
+        self.real = reg.adapters
+        self.proxy = _AdaptersProxy(self, self.real)
+        self.start()
 
     def iid(self, x):
         """id of an interface / specification; per-instance specifications (directlyProvides) are identified by VALUE
@@ -1260,6 +1404,34 @@ class _World:
                         r2.headers[hk] = r.headers[hk]
                 r2.environ['c15.root'] = ctx
                 resp = r2.get_response(self.router)
+                if resp.status_int == 404:
+                    resp = None
+                elif resp.status_int == 403:
+                    return [FORBIDDEN_ANSWER], 0
+            elif st['via'] == 2:
+                # through Router.invoke_subrequest (public: request.invoke_subrequest) with a request OBJECT; with
+                # same=1 it is the object of the previous such step, sent to another URL the way an internal forward
+                # does it: path rewritten, the routing result of the earlier dispatch forgotten (public attributes)
+                if self.router is None:
+                    from pyramid.router import Router
+                    self.router = Router(self.reg)
+                path = '/r1' if st['req'] == 2 else '/' + NAMES[st['name']]
+                r2 = self.sub_request if st.get('same') else None
+                if r2 is None:
+                    r2 = Request.blank(path)
+                else:
+                    r2.path_info = path
+                    r2.matchdict = None
+                    r2.matched_route = None
+                    for hk in ('X-User', 'Accept'):
+                        r2.headers.pop(hk, None)
+                r2.method = st['m']
+                for hk in ('X-User', 'Accept'):
+                    if hk in r.headers:
+                        r2.headers[hk] = r.headers[hk]
+                r2.environ['c15.root'] = ctx
+                self.sub_request = r2
+                resp = self.router.invoke_subrequest(r2, use_tweens=True)
                 if resp.status_int == 404:
                     resp = None
                 elif resp.status_int == 403:
@@ -1540,11 +1712,18 @@ def run_hist(case):
     w.start()
     fresh = []
     probes = []
+    epoch = 0          # index of the first step after the last re-initialisation
     for oid, st in enumerate(case['hist']):
-        if st['t'] == 'Q':
+        if st['t'] == 'I':
+            try:
+                w.reinit()
+            except Exception as e:
+                probes.append(['reinit-crashed', type(e).__name__])
+            epoch = oid + 1
+        elif st['t'] == 'Q':
             w.hist_request(st, oid)
             f = _World(order=case['order'], foreign=case.get('foreign', 0))
-            for prev in case['hist'][:oid]:
+            for prev in case['hist'][epoch:oid]:
                 if prev['t'] == 'V':
                     f.add_view_pred(prev)
             a, crashed = f.request(st)
@@ -1556,7 +1735,7 @@ def run_hist(case):
                 allowed = []
                 for upto in (oid, oid + 1):
                     f = _World(order=case['order'], foreign=case.get('foreign', 0))
-                    for prev in case['hist'][:upto]:
+                    for prev in case['hist'][epoch:upto]:
                         if prev['t'] == 'V':
                             f.add_view_pred(prev)
                     a, crashed = f.request(st['probe'])
@@ -1575,6 +1754,14 @@ def run_hist(case):
 def run_impl(case):
     if not _impl:
         setup('quick')
+    if _impl.get('frozen_pid') != os.getpid():
+        # requests for short-lived marked resources end with a FULL gc.collect(); in a pool worker the heap also holds
+        # the whole list of generated cases (millions of containers in the thorough tier), which every such collection
+        # would traverse.  Everything allocated so far is moved to the permanent generation once per process.
+        import gc
+        gc.collect()
+        gc.freeze()
+        _impl['frozen_pid'] = os.getpid()
     if 'soak' in case:
         return run_soak(case)
     if 'hist' in case:
@@ -1766,6 +1953,7 @@ def kinds(case, obs):
             return ['soak-free-running-threads-%d' % case['threads']]
         if 'hist' in case:
             b = Book(False)
+            k15_served = set()
             k.append('hist')
             if case['order']:
                 k.append('hist-custom-accept-order')
@@ -1810,7 +1998,33 @@ def kinds(case, obs):
             if any(a == [FORBIDDEN_ANSWER] for a in obs[3] if a != 0):
                 k.append('hist-forbidden-answer')
             seenq = False
+            warm = set()
+            chain = None
             for st in case['hist']:
+                if st['t'] == 'I':
+                    k.append('hist-reinit')
+                    if warm:
+                        k.append('hist-reinit-after-a-served-lookup')
+                    b = Book(False)
+                    warm = set()
+                    chain = None
+                    continue
+                if st['t'] == 'Q':
+                    key = (st['cl'], st['req'], qctx(st), st['name'])
+                    if 'hist-reinit' in k and key in k15_served:
+                        k.append('hist-lookup-served-before-reinit-asked-again')
+                    k15_served.add(key)
+                    warm.add(key)
+                    if st['via'] == 2:
+                        k.append('hist-via-invoke-subrequest')
+                        if st.get('same') and chain is not None:
+                            k.append('hist-redispatch-same-request-object')
+                            if chain[-1] != st['req']:
+                                k.append('hist-redispatch-route-then-no-route' if chain[-1] == 2 else
+                                         'hist-redispatch-no-route-then-route')
+                            chain = chain + [st['req']]
+                        else:
+                            chain = [st['req']]
                 if st['t'] == 'V':
                     b.register(st)
                     if seenq:
